@@ -146,6 +146,10 @@ def replay_one(taps: Taps, loop: asyncio.AbstractEventLoop, dnsmod: t.Any, rid: 
             out, res = type(e).__name__, dict(_EMPTY_RES)
         calls = [c for c in taps.calls]
         first = calls[0] if calls else {"qname": "", "rdtype": "", "search": "absent", "flavour": flavour}
+        if domain and first["qname"].endswith(".") and not domain.endswith("."):
+            # the same owner name written as an absolute name: not a different query
+            first = dict(first, qname=first["qname"][:-1])
+            row.setdefault("drift", []).append("query name given as absolute name (trailing dot)")
         row[key] = {"n": len(calls), "qname": _cp(first["qname"]), "rdtype": first["rdtype"], "search": first["search"],
                     "via": first["flavour"], "out": out, "res": res}
     return row
@@ -212,6 +216,8 @@ def run(ctx: Ctx) -> int:
             loop.close()
 
     for row in rows:
+        for d in row.pop("drift", []):
+            ctx.note_drift(d)
         for f in ("s", "a"):
             if row[f]["n"] and row[f]["via"] != ("sync" if f == "s" else "async"):
                 ctx.note_drift(f"{'sync' if f == 's' else 'async'} lookup went through the other resolver flavour")
